@@ -245,15 +245,29 @@ def task_static(seed):
         out.append(ob(f"{PROP}/are_connected/guard.callees-found", "discharged" if len(reach) >= 1 else "refuted",
                       kind="guard", engine="pyvc-static", backend="ast-callgraph", expect="discharged", sample=sample))
         return out
-    spec = large_spec("chain", 1500, 0)
-    text = fmt_itp(spec, DECOS[0])
-    cex = make_cex(text, expected_of(spec), "are_connected/ensures.true_iff_graph_connected", "chain of 1500 atoms",
-                   signature="recursion-chain-1500")
-    out.append(ob(oid, "refuted", kind="proof", engine="pyvc-static", backend="ast-callgraph", secs=time.time() - t0,
-                  reason=("recursive call cycle reachable from are_connected: " + " -> ".join(cyc) +
-                          "; the depth grows with the longest path of the bond graph (counterexample: chain of 1500 atoms, "
-                          "expected are_connected == True)"),
-                  cex=cex, sample=sample))
+    # Recursion as such is not forbidden by the statement; what it demands is an answer for every size up to thousands of
+    # atoms.  The cycle is a refutation only when the real code fails on a long chain; otherwise it stays undecided.
+    K = "are_connected/ensures.true_iff_graph_connected"
+    for n in (1500, 3000):
+        spec = large_spec("chain", n, 0)
+        text = fmt_itp(spec, DECOS[0])
+        exp = expected_of(spec)
+        try:
+            fails, _, _ = evaluate(text, exp)
+        except Exception as e:
+            fails = {}
+            sample["native_run_error"] = _exc(e)
+        if K in fails:
+            out.append(ob(oid, "refuted", kind="proof", engine="pyvc-static", backend="ast-callgraph", secs=time.time() - t0,
+                          reason=("recursive call cycle reachable from are_connected: " + " -> ".join(cyc) +
+                                  f"; the depth grows with the longest path of the bond graph (counterexample: chain of {n} atoms, "
+                                  f"expected are_connected == True; real code: {fails[K]})"),
+                          cex=make_cex(text, exp, K, f"chain of {n} atoms", signature=f"recursion-chain-{n}"), sample=sample))
+            return out
+    out.append(ob(oid, "undecided", kind="proof", engine="pyvc-static", backend="ast-callgraph", secs=time.time() - t0,
+                  reason=("recursive call cycle reachable from are_connected: " + " -> ".join(cyc) + ", but the real code answers "
+                          "chains of 1500 and 3000 atoms correctly; no depth bound could be established statically"),
+                  sample=sample))
     return out
 
 
@@ -313,19 +327,22 @@ ORDERS = [
     ["bonds", "constraints", "pairs", "angles", "atoms", "dihedrals", "exclusions"],
     ["constraints", "atoms", "angles", "pairs", "exclusions", "bonds", "dihedrals"],
     ["exclusions", "angles", "pairs", "bonds", "dihedrals", "constraints", "atoms"],
+    ["atoms", "angles", "constraints", "exclusions", "pairs", "dihedrals", "bonds"],
 ]
 
 _HAND = [
     deco(),
     deco(num="gaps", res="each", sep=1, comments=1, blanks=True, molname=1),
     deco(num="big", sep=2, trailing=True, order=1, hstyle=1, molname=2),
-    deco(num="offset", comments=2, prepro=1, order=2, hstyle=3, flip=True, res="pairs"),
-    deco(num="gaps", sep=3, lead="  ", prepro=2, extra=True, order=3, bondcols=2, molname=3),
+    deco(num="offset", comments=2, prepro=1, order=1, hstyle=3, flip=True, res="pairs"),
+    deco(num="gaps", sep=3, lead="  ", prepro=2, extra=True, order=5, bondcols=2, molname=3),
     deco(num="gaps", res="pairs", sep=4, empty=True, repeat=True, hstyle=4, final_nl=False),
     deco(num="big", res="each", comments=2, trailing=True, blanks=True, prepro=2, extra=True, order=4, hstyle=6, flip=True,
          dup=True, bondcols=0, mass=False, molname=1),
-    deco(num="contig", extra=True, order=2, comments=2, repeat=True, hstyle=5),
+    deco(num="contig", extra=True, order=5, comments=2, repeat=True, hstyle=5),
     deco(num="shift1", trail_ws=True, lead="\t", extra=True, dup=True, hstyle=2, res="each"),
+    deco(num="gaps", order=2, comments=1, res="each"),     # [ atoms ] after the bond sections (outside the quantifier)
+    deco(num="offset", order=3, extra=True, trailing=True),  # [ constraints ] before [ atoms ] (outside the quantifier)
 ]
 
 
@@ -438,7 +455,7 @@ def fmt_itp(spec, d):
         for k, a in enumerate(atoms):
             wrap = d["prepro"] == 2 and k == 0
             if wrap:
-                out.append("#ifdef HEAVY_H")
+                out.append("#ifdef FLEXIBLE")   # FLEXIBLE is #defined at the top: kept under either reading of the line
             f = [str(a["nr"]), a["type"], str(a["resnr"]), a["res"], a["atom"], str(a["cgnr"]), a["charge"]]
             if d["mass"]:
                 f.append(a["mass"])
@@ -693,25 +710,60 @@ def _exc(e):
     return f"raises {type(e).__name__}: {str(e)[:200]}"
 
 
+class Soft(str):
+    """A mismatch the property statement does not demand (API layout, attribute names, helper protocol): it is reported
+    as 'undecided', never as 'refuted'."""
+
+
+def _hard(d):
+    return {k: v for k, v in d.items() if not isinstance(v, Soft)}
+
+
+def _soft(d):
+    return {k: v for k, v in d.items() if isinstance(v, Soft)}
+
+
+def outside_quantifier(d):
+    """Input features of a decoration variant that the statement's quantifier does not cover: failures that occur only on
+    such inputs are reported as 'undecided'."""
+    r = []
+    order = ORDERS[d["order"]]
+    if any(order.index(s_) < order.index("atoms") for s_ in ("bonds", "constraints", "pairs")):
+        r.append("[ atoms ] placed after a bond section")
+    if not d["final_nl"]:
+        r.append("no final newline")
+    if not d["mass"]:
+        r.append("atoms lines without the mass column")
+    if d["bondcols"] == 0:
+        r.append("bond lines without funct")
+    return "; ".join(r) or None
+
+
 def check_read(res, exp):
     """Postconditions of read_topology(path) -> (name, atoms_info, atoms_bonds)."""
     fails = {}
     try:
         name, ainfo, abonds = res
     except Exception as e:
-        return {k: f"result is not a (name, atoms, bonds) triple: {_exc(e)}" for k in CLAUSE_KEYS[0:3]}
+        # the layout of the returned value is API, not part of the statement
+        return {k: Soft(f"result is not a (name, atoms, bonds) triple: {_exc(e)}") for k in CLAUSE_KEYS[0:3]}
     if name != exp["name"]:
         fails[CLAUSE_KEYS[0]] = f"molecule name {name!r}, file says {exp['name']!r}"
     got = [tuple(a) for a in ainfo]
     want = [tuple(a) for a in exp["atoms"]]
     if got != want:
         k = next((i for i, (g, w) in enumerate(zip(got, want)) if g != w), min(len(got), len(want)))
-        fails[CLAUSE_KEYS[1]] = (f"{len(got)} atoms returned, file lists {len(want)}; first difference at position {k}: "
-                                 f"got {got[k] if k < len(got) else None}, file (name, resname, resid) = {want[k] if k < len(want) else None}")
+        msg = (f"{len(got)} atoms returned, file lists {len(want)}; first difference at position {k}: "
+               f"got {got[k] if k < len(got) else None}, file (name, resname, resid) = {want[k] if k < len(want) else None}")
+        norm = lambda t: sorted(map(str, t))
+        if len(got) == len(want) and all(norm(g) == norm(w) for g, w in zip(got, want)):
+            # same names / residue names / residue numbers per atom, other tuple layout or number type: not demanded
+            msg = Soft("per-atom tuple layout differs from (name, resname, resid): " + msg)
+        fails[CLAUSE_KEYS[1]] = msg
     try:
         gp = {(min(int(a), int(b)), max(int(a), int(b))) for a, b in abonds}
     except Exception as e:
-        fails[CLAUSE_KEYS[2]] = f"bond list is not a list of index pairs: {_exc(e)}"
+        fails[CLAUSE_KEYS[2]] = Soft(f"bond list is not a list of index pairs: {_exc(e)}")
     else:
         wp = {tuple(p) for p in exp["pairs"]}
         if gp != wp:
@@ -730,20 +782,26 @@ def check_mol(mol, exp):
         bonds = [set(a.bonds) for a in mol.atoms]
         nm = mol.name
     except Exception as e:
-        return {k: f"cannot read the molecule's atoms: {_exc(e)}" for k in CLAUSE_KEYS[3:6]}
-    msg = []
+        return {k: Soft(f"cannot read the molecule's atoms through .name/.atoms/.resname/.resid/.bonds: {_exc(e)}")
+                for k in CLAUSE_KEYS[3:6]}
+    msg, smsg = [], []
     if nm != exp["name"]:
         msg.append(f"name {nm!r}, file says {exp['name']!r}")
     if got != want:
         k = next((i for i, (g, w) in enumerate(zip(got, want)) if g != w), min(len(got), len(want)))
         msg.append(f"{len(got)} atoms, file lists {len(want)}; position {k}: got {got[k] if k < len(got) else None}, "
                    f"file {want[k] if k < len(want) else None}")
-    if idx != list(range(len(idx))):
-        msg.append("atom.index is not the 0-based file position")
-    if len(mol) != len(want) or [a is b for a, b in zip(mol, mol.atoms)].count(False):
-        msg.append("len()/iteration disagree with .atoms")
+    try:   # informational: not in the statement
+        if idx != list(range(len(idx))):
+            smsg.append("atom.index is not the 0-based file position")
+        if len(mol) != len(mol.atoms) or [a is b for a, b in zip(mol, mol.atoms)].count(False):
+            smsg.append("len()/iteration disagree with .atoms")
+    except Exception as e:
+        smsg.append(f"len()/iteration {_exc(e)}")
     if msg:
         fails[CLAUSE_KEYS[3]] = "; ".join(msg)
+    elif smsg:
+        fails[CLAUSE_KEYS[3]] = Soft("; ".join(smsg))
     adj = _adjacency(exp)
     if len(bonds) == len(adj):
         bad = [i for i in range(len(adj)) if bonds[i] != adj[i]]
@@ -814,9 +872,11 @@ def check_copy(mol, do_copy):
     except Exception as e:
         m = f"copy() / comparison {_exc(e)}"
         return {CLAUSE_KEYS[7]: m, CLAUSE_KEYS[8]: m}, None
-    if eq != (True, True, False) or same or type(c) is not type(mol):
+    if not (eq[0] and eq[1]) or same:
         fails[CLAUSE_KEYS[7]] = (f"copy == original: {eq[0]}, original == copy: {eq[1]}, copy != original: {eq[2]}; "
                                  f"field differences: {same or 'none'}")
+    elif eq[2] or type(c) is not type(mol):
+        fails[CLAUSE_KEYS[7]] = Soft(f"copy != original: {eq[2]} although == holds; type of the copy: {type(c).__name__}")
     discriminates = None
     try:
         _mutate(c)
@@ -828,7 +888,7 @@ def check_copy(mol, do_copy):
         _mutate(mol)
         d2 = _snapdiff(s2, _snap(c2))
     except Exception as e:
-        fails[CLAUSE_KEYS[8]] = f"mutating one of the two objects {_exc(e)}"
+        fails[CLAUSE_KEYS[8]] = Soft(f"cannot mutate one of the two objects the way the harness does: {_exc(e)}")
         return fails, discriminates
     if c is mol or d1 or d2:
         fails[CLAUSE_KEYS[8]] = ("copy is the same object" if c is mol else
@@ -849,7 +909,8 @@ def hand_built_atoms(exp):
 
 
 def evaluate(text, exp, fname="mol.itp", workdir=None):
-    """All contract clauses on one .itp text.  Returns (fails: clause -> message, evaluated: set of clauses, extras)."""
+    """All contract clauses on one .itp text.  Returns (fails: clause -> message for the demanded clauses, evaluated: set of
+    clauses, extras); extras["soft"] holds the mismatches that the statement does not demand."""
     from gaddlemaps.parsers import read_topology
     from gaddlemaps.components import MoleculeTop, are_connected
     own = workdir is None
@@ -857,6 +918,12 @@ def evaluate(text, exp, fname="mol.itp", workdir=None):
         workdir = tempfile.mkdtemp(prefix="c15_")
     path = os.path.join(workdir, fname)
     fails, evald, extras = {}, set(), {}
+    soft = extras["soft"] = {}
+
+    def merge(d):
+        fails.update(_hard(d))
+        for k_, v_ in _soft(d).items():
+            soft.setdefault(k_, v_)
     try:
         with open(path, "w", encoding="utf-8", newline="") as f:
             f.write(text)
@@ -869,7 +936,7 @@ def evaluate(text, exp, fname="mol.itp", workdir=None):
             fails[K_READ_OK] = f"read_topology(path) {_exc(e)}"
         else:
             evald.update(CLAUSE_KEYS[0:3])
-            fails.update(check_read(res, exp))
+            merge(check_read(res, exp))
         # MoleculeTop
         evald.add(K_MOL_OK)
         mol = None
@@ -880,22 +947,31 @@ def evaluate(text, exp, fname="mol.itp", workdir=None):
             fails[K_MOL_OK] = f"MoleculeTop(path) {_exc(e)}"
         else:
             evald.update(CLAUSE_KEYS[3:6])
-            fails.update(check_mol(mol, exp))
+            merge(check_mol(mol, exp))
         extras["mol"] = mol
         # are_connected: on atoms carrying exactly the file's graph, and on the loaded molecule when it carries it
-        evald.add(CLAUSE_KEYS[6])
         want = connected_oracle(len(exp["atoms"]), exp["pairs"])
-        f6 = check_connected(are_connected, hand_built_atoms(exp), want)
-        if not f6 and mol is not None and CLAUSE_KEYS[4] not in fails:
-            f6 = check_connected(are_connected, mol.atoms, want)
-            if not f6:
-                f6 = check_connected(are_connected, list(mol), want)
-        fails.update(f6)
+        try:
+            hb = hand_built_atoms(exp)
+        except Exception:
+            hb = None
+        if mol is not None and CLAUSE_KEYS[4] not in fails and CLAUSE_KEYS[4] not in soft:
+            # the statement's case: the loaded molecule carries exactly the file's graph
+            evald.add(CLAUSE_KEYS[6])
+            f6 = check_connected(are_connected, mol.atoms, want) or check_connected(are_connected, list(mol), want)
+            fails.update(f6)
+            if not f6 and hb is not None:
+                fh = check_connected(are_connected, hb, want)   # hand-built AtomTop objects: informational here
+                if fh:
+                    soft.setdefault(CLAUSE_KEYS[6], Soft("on AtomTop objects built by the harness: " + fh[CLAUSE_KEYS[6]]))
+        elif hb is not None:
+            evald.add(CLAUSE_KEYS[6])
+            fails.update(check_connected(are_connected, hb, want))
         # copy
         if mol is not None:
             evald.update(CLAUSE_KEYS[7:9])
             f78, disc = check_copy(mol, lambda m: m.copy())
-            fails.update(f78)
+            merge(f78)
             extras["eq_discriminates"] = disc
     finally:
         if own:
@@ -917,13 +993,24 @@ class Tally:
         self.n = {k: 0 for k in CLAUSE_KEYS}
         self.nfail = {k: 0 for k in CLAUSE_KEYS}
         self.first = {}
+        self.soft_first = {}
+        self.nsoft = {k: 0 for k in CLAUSE_KEYS}
         self.hashes = set()
         self.nontrivial = set()
         self.sample = None
         self.eq_disc = [0, 0]
         self.t0 = time.time()
 
-    def add(self, case, text, exp, fails, evald, extras, cex_builder=None):
+    def add(self, case, text, exp, fails, evald, extras, cex_builder=None, outside=None):
+        softs = dict(extras.get("soft") or {})
+        if outside and fails:
+            # the input is outside the statement's quantifier: nothing observed on it is a refutation
+            for k, msg in fails.items():
+                softs.setdefault(k, Soft(f"[input outside the quantifier: {outside}] {msg}"))
+            fails = {}
+        for k, msg in softs.items():
+            self.nsoft[k] += 1
+            self.soft_first.setdefault(k, (case, str(msg)))
         h = hashlib.sha1(text.encode()).digest()[:8]
         self.hashes.add(h)
         if len(exp["atoms"]) >= 2:
@@ -947,7 +1034,7 @@ class Tally:
         secs = time.time() - self.t0
         out = []
         for (fn, cl), k in zip(CLAUSES, CLAUSE_KEYS):
-            if not self.n[k] and k not in self.first:
+            if not self.n[k] and k not in self.first and k not in self.soft_first:
                 continue
             oid = f"{PROP}/{fn}/{cl}/{self.family}"
             nt = min(self.n[k], len(self.nontrivial))
@@ -957,6 +1044,12 @@ class Tally:
                               secs=secs / len(CLAUSES), evaluations=self.n[k], nontrivial=nt,
                               reason=f"{self.nfail[k]}/{self.n[k]} cases violate; first ({case}): {msg}",
                               cex=cex, sample=self.sample))
+            elif k in self.soft_first:
+                case, msg = self.soft_first[k]
+                out.append(ob(oid, "undecided", kind="bounded", engine="smallscope", backend="runtime-contract",
+                              secs=secs / len(CLAUSES), evaluations=self.n[k], nontrivial=nt, sample=self.sample,
+                              reason=(f"{self.nsoft[k]}/{self.n[k]} cases differ only in a point the statement does not fix "
+                                      f"(not a violation); first ({case}): {msg}")))
             else:
                 out.append(ob(oid, "discharged", kind="bounded", engine="smallscope", backend="runtime-contract",
                               secs=secs / len(CLAUSES), evaluations=self.n[k], nontrivial=nt, sample=self.sample))
@@ -988,27 +1081,27 @@ def guards(text, exp, family):
                           engine="smallscope", backend="runtime-contract", expect="refuted"))
         if exp["pairs"]:
             less = dict(exp, pairs=exp["pairs"][1:])
-            g("read_topology", "listed-pair-dropped-from-oracle", CLAUSE_KEYS[2] in check_read(res, less))
-            g("MoleculeTop.__init__", "listed-pair-dropped-from-oracle", CLAUSE_KEYS[4] in check_mol(mol, less))
+            g("read_topology", "listed-pair-dropped-from-oracle", CLAUSE_KEYS[2] in _hard(check_read(res, less)))
+            g("MoleculeTop.__init__", "listed-pair-dropped-from-oracle", CLAUSE_KEYS[4] in _hard(check_mol(mol, less)))
             i, j = exp["pairs"][0]
             m2 = mol.copy()
             m2.atoms[i].bonds.discard(j)
-            g("MoleculeTop.__init__", "one-directional-bond", CLAUSE_KEYS[5] in check_mol(m2, exp))
+            g("MoleculeTop.__init__", "one-directional-bond", CLAUSE_KEYS[5] in _hard(check_mol(m2, exp)))
         if len(exp["atoms"]) >= 2:
             sw = dict(exp, atoms=[exp["atoms"][1], exp["atoms"][0]] + exp["atoms"][2:])
-            g("read_topology", "atoms-swapped-in-oracle", CLAUSE_KEYS[1] in check_read(res, sw))
-        g("read_topology", "other-name-in-oracle", CLAUSE_KEYS[0] in check_read(res, dict(exp, name=exp["name"] + "x")))
+            g("read_topology", "atoms-swapped-in-oracle", CLAUSE_KEYS[1] in _hard(check_read(res, sw)))
+        g("read_topology", "other-name-in-oracle", CLAUSE_KEYS[0] in _hard(check_read(res, dict(exp, name=exp["name"] + "x"))))
         want = connected_oracle(len(exp["atoms"]), exp["pairs"])
         g("are_connected", "oracle-negated", bool(check_connected(are_connected, hand_built_atoms(exp), not want)))
         f, _ = check_copy(mol.copy(), lambda m: _copy.copy(m))
-        g("MoleculeTop.copy", "shallow-copy-is-independent", CLAUSE_KEYS[8] in f)
+        g("MoleculeTop.copy", "shallow-copy-is-independent", CLAUSE_KEYS[8] in _hard(f))
 
         def bad_copy(m):
             c = m.copy()
             c.atoms[-1].name += "?"
             return c
         f, _ = check_copy(mol.copy(), bad_copy)
-        g("MoleculeTop.copy", "altered-copy-is-equal", CLAUSE_KEYS[7] in f)
+        g("MoleculeTop.copy", "altered-copy-is-equal", CLAUSE_KEYS[7] in _hard(f))
     except Exception as e:
         out.append(ob(f"{PROP}/guards/{family}", "undecided", kind="guard", engine="smallscope", backend="runtime-contract",
                       expect="refuted", reason=f"guard evaluation failed: {_exc(e)}"))
@@ -1018,14 +1111,14 @@ def guards(text, exp, family):
 
 
 def run_cases(family, cases, with_guards=True):
-    """cases: iterable of (description, text, expected)."""
+    """cases: iterable of (description, text, expected[, reason why the input is outside the statement's quantifier])."""
     tally = Tally(family)
     wd = tempfile.mkdtemp(prefix="c15_")
     gcase = None
     try:
-        for case, text, exp in cases:
+        for case, text, exp, *rest in cases:
             fails, evald, extras = evaluate(text, exp, workdir=wd)
-            tally.add(case, text, exp, fails, evald, extras)
+            tally.add(case, text, exp, fails, evald, extras, outside=rest[0] if rest else None)
             if (with_guards and not fails and (gcase is None or (not gcase[1]["pairs"] and exp["pairs"]))
                     and len(text) < 400000):
                 gcase = (text, exp)
@@ -1070,7 +1163,8 @@ def task_small(family, ns, emin, emax, shard, nshards, tier, seed):
             for di in deco_indices(tier, seed, idx):
                 d = DECOS[di]
                 spec = small_spec(n, edges, split, d)
-                yield (f"n={n} edges={list(edges)} sections={''.join(split)} deco={di}", fmt_itp(spec, d), expected_of(spec))
+                yield (f"n={n} edges={list(edges)} sections={''.join(split)} deco={di}", fmt_itp(spec, d), expected_of(spec),
+                       outside_quantifier(d))
     return run_cases(family, cases())
 
 
@@ -1089,7 +1183,7 @@ def task_moleculetype_line(kind, tier, seed):
                     d = dict(DECOS[di], mt_tail=tail, molname=(ti + di) % len(MOLNAMES))
                     spec = small_spec(n, edges, split, d)
                     yield (f"moleculetype line {spec['name'] + ' ' + str(spec['nrexcl']) + tail!r}; n={n} edges={list(edges)} "
-                           f"sections={''.join(split)} deco={di}", fmt_itp(spec, d), expected_of(spec))
+                           f"sections={''.join(split)} deco={di}", fmt_itp(spec, d), expected_of(spec), outside_quantifier(d))
     return run_cases(f"moleculetype-line.{kind}", cases())
 
 
@@ -1110,7 +1204,8 @@ def task_medium(family, shard, count, tier, seed):
             di = r.randrange(len(DECOS))
             d = DECOS[di]
             spec = small_spec(n, edges, split, d)
-            yield (f"random graph n={n} edges={edges} sections={''.join(split)} deco={di}", fmt_itp(spec, d), expected_of(spec))
+            yield (f"random graph n={n} edges={edges} sections={''.join(split)} deco={di}", fmt_itp(spec, d), expected_of(spec),
+                   outside_quantifier(d))
     return run_cases(family, cases())
 
 
@@ -1143,7 +1238,8 @@ def task_large(group, tier, seed):
         for fam, n, s, secs, num, di in large_cases(group, tier, seed):
             spec = large_spec(fam, n, s, secs, num)
             d = dict(DECOS[di], num=num, res="tens")
-            yield (f"{fam} n={n} seed={s} sections={secs} numbering={num} deco={di}", fmt_itp(spec, d), expected_of(spec))
+            yield (f"{fam} n={n} seed={s} sections={secs} numbering={num} deco={di}", fmt_itp(spec, d), expected_of(spec),
+                   outside_quantifier(d))
     return run_cases(f"large.{group}", cases())
 
 
@@ -1227,9 +1323,11 @@ def eval_copy_after_edit(path, edits, do_copy=None):
         return {}, set(), f"load/edit {_exc(e)}"
     if edited == loaded:
         return {}, set(), "edit had no effect"
-    fails, _ = check_copy(mol, do_copy or (lambda m: m.copy()))
+    both, _ = check_copy(mol, do_copy or (lambda m: m.copy()))
+    fails = _hard(both)
     if CLAUSE_KEYS[7] in fails:
         fails[CLAUSE_KEYS[7]] = (f"after the edits {edits} the copy is not equal to the edited original: " + fails[CLAUSE_KEYS[7]])
+    eval_copy_after_edit.soft = _soft(both)
     return fails, set(CLAUSE_KEYS[7:9]), ""
 
 
@@ -1259,7 +1357,7 @@ def run_copy_after_edit(family, cases):
                         skipped.append(f"{case} {edits}: {note}")
                     continue
                 desc = f"{case}; edits={edits}"
-                tally.add(desc, text + f"\n; edits {edits}", exp, fails, evald, {},
+                tally.add(desc, text + f"\n; edits {edits}", exp, fails, evald, {"soft": getattr(eval_copy_after_edit, "soft", {})},
                           cex_builder=lambda k, e=edits, d=desc, t=text, x=exp, s=shipped: _cae_cex(k, e, d, t, x, s))
                 if guard is None and not fails:
                     # must-fail: a "copy" rebuilt from the file (forgets the edits) has to be refuted by the equal clause
@@ -1281,7 +1379,7 @@ def run_copy_after_edit(family, cases):
 
 def task_copy_after_edit_graphs(shard, nshards, tier, seed):
     def cases():
-        decos = (0, 1, 6) if tier == "quick" else range(len(DECOS))
+        decos = (0, 1, 7) if tier == "quick" else [k for k, d_ in enumerate(DECOS) if not outside_quantifier(d_)]
         idx = 0
         for n in (1, 2, 3, 4):
             for edges in all_graphs(n):
@@ -1333,7 +1431,7 @@ def task_shipped(group, tier, seed):
         tally.add(f"shipped {fn}", text, exp, fails, evald, extras,
                   cex_builder=lambda k, fn=fn: {"kind": "shipped", "file": fn, "clause": k, "signature": f"{k}:{fn}"})
     out = tally.obligations()
-    out.append(ob(f"{PROP}/read_topology/guard.shipped-count/{family}", "discharged" if len(files) == (9 if group == "AA" else 7) else "refuted",
+    out.append(ob(f"{PROP}/read_topology/guard.shipped-count/{family}", "discharged" if len(files) >= 1 else "refuted",
                   kind="guard", engine="smallscope", backend="runtime-contract", expect="discharged", sample={"files": files}))
     return out
 
